@@ -12,6 +12,7 @@ CONSTANTS
   RecvApis = {"complete", "startread", "typed"}
   WriteSizes = {0, 1, 2}
   StrSizes = {}
+  StrBytesSizes = {}
   ReadSizes = {0, 1}
   MaxMsgs = 2
   MaxWrites = 2
